@@ -1,0 +1,27 @@
+//go:build verif
+
+package generate
+
+// Machine-checked contracts for /verif (comment-only; compiled only with -tags verif).
+
+// ---- C11: the switch that protects the user's configure file reaches the generator ----
+
+//@ func contribOptionsOverride
+//@ props C11
+//@ safety
+//@ requires opts != nil
+//@ modifies &opts.RegenerateConfigureAPI, &opts.IncludeMain
+//@ ensures opts.Template == "stratoscale" ==> opts.RegenerateConfigureAPI && !opts.IncludeMain
+//@ ensures opts.Template != "stratoscale" ==> opts.RegenerateConfigureAPI == old(opts.RegenerateConfigureAPI) && opts.IncludeMain == old(opts.IncludeMain)
+
+//@ func createSwagger
+//@ props C11
+//@ ensures vs_called("contribOptionsOverride") && vs_called("EnsureDefaults") ==> vs_callOrder("contribOptionsOverride") < vs_callOrder("EnsureDefaults")
+//@ ensures vs_called("apply") && vs_called("EnsureDefaults") ==> vs_callOrder("apply") < vs_callOrder("EnsureDefaults")
+//@ ensures result == nil ==> vs_called("apply") && vs_called("EnsureDefaults") && vs_called("generate") && vs_callOrder("EnsureDefaults") < vs_callOrder("generate")
+//@ ensures vs_called("generate") ==> vs_callArg[*generator.GenOpts]("generate", 1) == vs_callArg[*generator.GenOpts]("EnsureDefaults", 0) && vs_callArg[*generator.GenOpts]("generate", 1) == vs_callArg[*generator.GenOpts]("apply", 1)
+
+//@ func Server.apply
+//@ props C11
+//@ requires opts != nil
+//@ ensures opts.RegenerateConfigureAPI == s.RegenerateConfigureAPI
